@@ -58,13 +58,13 @@ impl Rx {
             r is Some ==> !final(self).closed_seen@,
     { unimplemented!() }
 }
-/// `attaches` (ghost): how many attach frames this endpoint has queued
+/// `attaches` (ghost): how many attach frames this endpoint has queued; `plain_attaches`: how many of them were built with is_reattaching = false (no unsettled map: the attach of a NEW link)
 /// Arc<OnceLock<SessionStopReason>>: what the session published when it stopped (None: still running, or nothing recorded)
 pub struct StopCell { pub v: Option<SessionStopReason> }
 impl StopCell {
     pub fn get(&self) -> (r: Option<&SessionStopReason>) ensures (match (r, self.v) { (Some(a), Some(b)) => *a == b, (None, None) => true, _ => false }) { match &self.v { Some(x) => Some(x), None => None } }
 }
-pub struct EndS { pub link: LinkS, pub sent: Ghost<Seq<(bool, Option<AmqpError>)>>, pub has_handle: Ghost<bool>, pub failures: Ghost<nat>, pub incoming: Rx, pub attaches: Ghost<nat>, pub stop: StopCell }
+pub struct EndS { pub link: LinkS, pub sent: Ghost<Seq<(bool, Option<AmqpError>)>>, pub has_handle: Ghost<bool>, pub failures: Ghost<nat>, pub incoming: Rx, pub attaches: Ghost<nat>, pub stop: StopCell, pub plain_attaches: Ghost<nat> }
 
 pub open spec fn send_legal(st: LinkState, closed: bool) -> bool {
     match (st, closed) {
@@ -89,7 +89,7 @@ impl EndS {
     #[verifier::external_body]
     pub fn reallocate_output_handle(&mut self) -> (r: Result<(), AttachErrorS>)
         ensures
-            final(self).sent == old(self).sent, final(self).link == old(self).link, final(self).attaches == old(self).attaches, final(self).failures@ >= old(self).failures@,
+            final(self).sent == old(self).sent, final(self).link == old(self).link, final(self).attaches == old(self).attaches, final(self).failures@ >= old(self).failures@, final(self).plain_attaches == old(self).plain_attaches,
             final(self).incoming.errs == old(self).incoming.errs, final(self).incoming.got@.len() >= old(self).incoming.got@.len(),
             r is Ok ==> final(self).has_handle@, r is Err ==> final(self).has_handle == old(self).has_handle,
     { unimplemented!() }
@@ -104,12 +104,13 @@ impl EndS {
                 ==> r is Err && final(self).attaches == old(self).attaches && final(self).link == old(self).link && final(self).incoming == old(self).incoming,
             final(self).attaches@ == old(self).attaches@ || final(self).attaches@ == old(self).attaches@ + 1,
             r is Ok ==> final(self).attaches@ == old(self).attaches@ + 1 && final(self).incoming.errs@ == old(self).incoming.errs@,
+            final(self).plain_attaches@ == old(self).plain_attaches@ + (if final(self).attaches@ > old(self).attaches@ && !is_reattaching { 1nat } else { 0nat }),
     { unimplemented!() }
     /// Link::handle_attach_error: may answer a refused attach with a detach of its own; returns the error to report (under contract in unit LINKEXCH: at most one detach, a closing one, is written; errors that mean the session or the peer went away are kept as they are)
     #[verifier::external_body]
     pub fn handle_attach_error(&mut self, e: AttachErrorS) -> (r: AttachErrorS)
         ensures final(self).attaches == old(self).attaches, final(self).incoming.got@.len() >= old(self).incoming.got@.len(), final(self).failures@ >= old(self).failures@,
-            final(self).sent == old(self).sent, final(self).has_handle == old(self).has_handle,
+            final(self).sent == old(self).sent, final(self).has_handle == old(self).has_handle, final(self).plain_attaches == old(self).plain_attaches,
     { unimplemented!() }
     /// handle_reattach_outcome (sender / receiver): Complete => Ok, anything else => IllegalState
     #[verifier::external_body]
@@ -125,6 +126,7 @@ impl EndS {
         final(self).sent == old(self).sent, final(self).failures@ >= old(self).failures@, final(self).incoming.got@.len() >= old(self).incoming.got@.len(),
         r is Ok ==> final(self).link.st is Attached && final(self).has_handle@,
         r is Ok ==> final(self).incoming.errs@ == old(self).incoming.errs@,
+        final(self).plain_attaches == old(self).plain_attaches,       // [C02.reattach.attach-announces-the-unsettled-deliveries] the attach written when a link re-attaches (the peer answered a detach with a closing one; a resume) is built as a RE-attach: it carries the unsettled map (unit ATTACHBUILD: get_unsettled_map lists the deliveries only then), so the deliveries still in doubt are announced to the peer, not silently dropped
         final(self).has_handle@ && !old(self).has_handle@ ==> final(self).attaches@ > old(self).attaches@,      // [C13.link.no-handle-without-attach] a handle taken for a re-attach is kept only if the attach for it was actually written: a handle left behind by a re-attach that failed before its attach went out is detached once more by Drop (`detach{closed}` for a handle that was never attached: the second detach for one attach)
 //@@ end
 
